@@ -880,6 +880,22 @@ fn post_mutate(rng: &mut Rng, m: &mut GenModel, lim: &GenLimits) {
             },
         );
     }
+    // rescale a row, or the objective, by a power of two (same feasible set, same optimum up
+    // to the factor; exact in f64): magnitudes from 1/8 up to 1024 times the palette
+    if !lim.integer_data && !m.rows.is_empty() && rng.chance(1, 12) {
+        let i = rng.usize(0, m.rows.len() - 1);
+        let f = *rng.pick(&[0.125, 0.25, 4.0, 64.0, 1024.0]);
+        for c in m.rows[i].coefs.iter_mut() {
+            *c *= f;
+        }
+        m.rows[i].rhs *= f;
+    }
+    if !lim.integer_data && rng.chance(1, 20) {
+        let f = *rng.pick(&[0.25, 8.0, 256.0]);
+        for c in m.obj.iter_mut() {
+            *c *= f;
+        }
+    }
     // objective variants
     match rng.below(20) {
         0 => m.obj = vec![0.0; n],
